@@ -167,6 +167,9 @@ pub struct Globals {
     pub fns: BTreeMap<(Option<String>, String), Vec<FnInfo>>,
     /// keys of the translated structs / enums with `#[derive(Clone)]` (`x.clone()` is the identity on the representation)
     pub derive_clone: BTreeSet<String>,
+    /// number of explicit randomness parameters (`rand1 ..`, see `manifest::RANDOM_SOURCES`) of the fns emitted so far:
+    /// (namespace, Lean short name) -> count
+    pub rand_counts: RefCell<BTreeMap<(String, String), usize>>,
 }
 
 /// does the item carry `#[derive(.., Clone, ..)]`?
@@ -323,6 +326,7 @@ impl Globals {
             consts: BTreeMap::new(),
             fns: BTreeMap::new(),
             derive_clone: BTreeSet::new(),
+            rand_counts: RefCell::new(BTreeMap::new()),
         };
         register_builtins(&mut g);
         // pass 1: names (keys) of translated types
